@@ -10,7 +10,7 @@ Definition writes (o : op) : option nat :=
   | AppendValue r _ | AppendValues r _ | RemoveValue r _ | RemoveValues r _ _ | RemoveAll r
   | SortValues r | SortWith r _ | ReverseValues r | ShuffleValues r _
   | AddValue r _ | AddValues r _ | DelValue r _ | DelValues r _ | Push r _ | Pop r
-  | ASet r _ _ | ARemove r _ | ARemoveValues r _
+  | ASet r _ _ | ARemove r _ | ARemoveValues r _ | ARemoveValuesBad r _
   | INext r | IPrev r | IToStart r | IToEnd r | IToSlot r _ => Some r
   | _ => None
   end.
@@ -54,7 +54,7 @@ Local Opaque sort_values reverse_values shuffle_values set_and set_or set_sans s
   get_index contains_value contains_any contains_all stack_push stack_pop build reorder seq_view
   rank0 compare0 get_next get_prev to_slot
   set_and_p set_or_p set_sans_p set_xor_p set_add_p set_remove_p set_contains_p set_contains_any_p set_contains_all_p
-  set_get_index_p set_operand set_like.
+  set_get_index_p set_operand set_like pairs_perm.
 
 Ltac brk :=
   repeat match goal with
